@@ -9,8 +9,12 @@ ID = "C21"
 LEVEL = "exploration"
 RULE = ("Each case = one whole simulated Pynguin run with assertion generation MUTATION_ANALYSIS (first- and "
         "higher-order strategies, with/without assertion minimisation, with/without a mutation time budget in simulated "
-        "seconds) or SIMPLE on a corpus module. (1) After assertion generation every test case is re-executed on the "
-        "unmutated module with Pynguin's verification observer on a private executor: no assertion may fail or error. "
+        "seconds) or SIMPLE on a corpus module - the six general ones plus wide (statements with > 16 assertions, "
+        "kill maps with assertion index >= 16), loops (mutants that are killed by one test and hang in a later one) and "
+        "flaky (a process-wide counter and attributes that exist on one object only, so the filtering re-execution "
+        "sees failing AND erroring assertions on one statement). (1) After assertion generation every test case is "
+        "re-executed TWICE on the unmutated module with Pynguin's verification observer on a private executor: no "
+        "assertion may fail or error. "
         "(2) Every real call of _select_minimal_assertions is checked: selection subset of candidates and "
         "kills(selection) == kills(all). (3) The mutation summary is recomputed from the raw per-test/per-mutant "
         "results by a reference and the reported score must equal killed/(checked - timed out), lie in [0,1]. Looping "
@@ -36,13 +40,17 @@ BUDGET = {
     "thorough": {"runs": 6000, "chunk": 8, "wall": 1700, "chunk_timeout": 900, "selfcheck": 32},
 }
 _ALGOS = ["DYNAMOSA", "MOSA", "WHOLE_SUITE", "RANDOM"]
+# corpus + modules whose shapes the assertion machinery has special paths for: statements with > 16 assertions (wide),
+# mutants that are killed by one test and hang in a later one (loops), behaviour that changes between any two
+# consecutive executions so that the filtering re-execution sees failing AND erroring assertions (flaky)
+_MODULES = ["tiny", "words", "shapes", "floats", "zoo", "plain", "wide", "wide", "loops", "loops", "flaky"]
 _STRATS = ["FIRST_ORDER_MUTANTS", "FIRST_ORDER_MUTANTS", "FIRST_TO_LAST", "BETWEEN_OPERATORS", "RANDOM", "EACH_CHOICE"]
 
 
 def gen_case(run_seed: int, tier: str) -> dict:
     st = Streams(run_seed)
     r, k, f = st.get("ops"), st.get("knobs"), st.get("faults")
-    case = gen_base_case(run_seed, r, k, algorithms=_ALGOS)
+    case = gen_base_case(run_seed, r, k, algorithms=_ALGOS, modules=_MODULES)
     kn = case["knobs"]
     kn["iterations"] = k.choice([2, 3])
     kn["population"] = k.choice([4, 6])
@@ -53,6 +61,12 @@ def gen_case(run_seed: int, tier: str) -> dict:
     kn["assertion_minimization"] = k.random() < 0.6
     kn["exec_timeout"] = k.choice([1, 2])
     case["timeout_p"] = 0.0
+    if case["module"] == "loops":
+        # hanging mutants are the point here: make a simulated second cheap (1 ms per traced line) so that a timed-out
+        # mutant execution costs ~10^3 steps instead of ~10^5, and give the unmutated loops room
+        case["line_cost_ns"] = 1_000_000
+        kn["exec_timeout"] = k.choice([2, 3])
+        kn["max_mutants"] = 10
     return case
 
 
@@ -64,6 +78,10 @@ class KillMonitor(Monitor):
         self.mutants = 0
         self.timeouts = 0
         self.score = None
+        self.killed_then_timeout = 0
+        self.filter_statements_with_failed_and_error = 0
+        self.max_assertions_on_one_statement = 0
+        self.widest_kill_index = 0
 
     def on_setup(self, run):
         import pynguin.assertion.assertiongenerator as ag
@@ -74,6 +92,9 @@ class KillMonitor(Monitor):
         def sel(kill_map):
             keep = orig_sel(kill_map)
             mon.selections += 1
+            for key, kills in kill_map.items():
+                if kills and key[1] > mon.widest_kill_index:
+                    mon.widest_kill_index = key[1]
             cands = {k for k, v in kill_map.items() if v}
             if len(cands) >= 2 and len(set().union(*kill_map.values())) >= 2:
                 mon.rich_selections += 1
@@ -87,6 +108,18 @@ class KillMonitor(Monitor):
             return keep
 
         run.patch(ag, "_select_minimal_assertions", sel)
+        base_cls = ag.AssertionGenerator
+        rn = "_AssertionGenerator__remove_non_holding_assertions"
+        orig_rn = getattr(base_cls, rn)
+
+        def remove_non_holding(test, result):
+            vt = result.assertion_verification_trace
+            both = [i for i in vt.failed if vt.failed[i] and vt.error.get(i)]
+            if both:
+                mon.filter_statements_with_failed_and_error += len(both)
+            return orig_rn(test, result)
+
+        run.patch(base_cls, rn, staticmethod(remove_non_holding))
         cls = ag.MutationAnalysisAssertionGenerator
         name = "_MutationAnalysisAssertionGenerator__compute_mutation_summary"
         orig_cms = getattr(cls, name)
@@ -101,6 +134,8 @@ class KillMonitor(Monitor):
                     if res is None:
                         continue
                     if res.timeout:
+                        if state == "killed":
+                            mon.killed_then_timeout += 1
                         state = "timeout"
                         break
                     tr = res.assertion_verification_trace
@@ -138,11 +173,17 @@ class KillMonitor(Monitor):
             self.kept_assertions += n
             if n == 0:
                 continue
-            res = priv.execute(t)
-            tr = res.assertion_verification_trace
-            bad = [(pos, sorted(v), "failed") for pos, v in tr.failed.items() if v] + \
-                  [(pos, sorted(v), "error") for pos, v in tr.error.items() if v]
-            if res.timeout:
+            self.max_assertions_on_one_statement = max([self.max_assertions_on_one_statement] +
+                                                       [len(s.assertions) for s in t.statements()])
+            bad = []
+            timed_out = False
+            for _rep in range(2):  # twice: what differs between two consecutive executions must already be gone
+                res = priv.execute(t)
+                tr = res.assertion_verification_trace
+                bad += [(pos, sorted(v), "failed") for pos, v in tr.failed.items() if v] + \
+                       [(pos, sorted(v), "error") for pos, v in tr.error.items() if v]
+                timed_out = timed_out or res.timeout
+            if timed_out:
                 run.probe("verification_timeout")
                 continue
             if bad:
@@ -160,7 +201,11 @@ def run_case(case: dict) -> dict:
     simple = case["knobs"]["assertions"] == "SIMPLE"
     res["nontrivial"] = mon.kept_assertions >= 2 and (simple or mon.rich_selections >= 1 or mon.mutants >= 2)
     res["probes"].update(minimal_selection_calls=mon.selections, selections_with_2plus_assertions_and_mutants=mon.rich_selections,
-                         assertions_kept=mon.kept_assertions, mutants_checked=mon.mutants, mutants_timed_out=mon.timeouts)
+                         assertions_kept=mon.kept_assertions, mutants_checked=mon.mutants, mutants_timed_out=mon.timeouts,
+                         mutants_killed_then_timed_out=mon.killed_then_timeout,
+                         filter_statements_with_failed_and_error=mon.filter_statements_with_failed_and_error,
+                         runs_with_statement_of_17plus_assertions=int(mon.max_assertions_on_one_statement >= 17),
+                         runs_with_kill_at_assertion_index_16plus=int(mon.widest_kill_index >= 16))
     res["faults"]["mutant_timeout_in_virtual_time"] = mon.timeouts
     if case["run_seed"] % 7 == 0:
         res["sample"] = {"module": case["module"], "algorithm": case["algorithm"], "knobs": case["knobs"],
